@@ -212,7 +212,7 @@ func c05WireRun(cs c05Wire, trace bool) (rule, msg string, w *world.World) {
 	}
 	for _, c := range w.NW.Conns {
 		if c.Lib {
-			if _, rest, err := wire.ParseStrict(c.Sent); err != nil || len(rest) > 0 {
+			if _, rest, err := wire.ParseStrict(c.Sent); err != nil || (len(rest) > 0 && !cutByPeer(c, rest)) {
 				return "malformed-output", fmt.Sprintf("%s: corebgp wrote malformed bytes (%v)", c, err), w
 			}
 		}
